@@ -248,6 +248,12 @@ func runC07(c *fw.Case) (o fw.Outcome) {
 				ps.key[r.Intn(16)] ^= 1 << uint(r.Intn(8))
 			}
 			m := cornerBytes(r, ln)
+			if step%2 == 1 { // a call the library refuses (128-NEA3 / 128-NIA3, reserved identities) with the very same parameters
+				bad := uint8(pick(r, 3, 3, 4, 7, 255))
+				security.NASEncrypt(bad, ps.key, ps.count, ps.bearer, ps.dir, append([]byte(nil), m...))
+				security.NASMacCalculate(bad, ps.key, ps.count, ps.bearer, ps.dir, append([]byte(nil), m...))
+				o.Count("refused_calls_in_sessions", 2)
+			}
 			for alg := uint8(1); alg <= 2; alg++ {
 				want, _ := sec.NEA(alg, ps.key[:], ps.count, ps.bearer, ps.dir, m)
 				got := append([]byte(nil), m...)
